@@ -1,0 +1,117 @@
+//go:build verif
+
+package dotgit
+
+// Contracts for the gvc verifier (/verif). Comment-only; never compiled into
+// a normal build.
+//
+// Property C14 as a gate property: every filesystem access of the reference
+// and reflog methods uses a path derived only from layout constants and from
+// a reference name for which validReferenceName returned nil.
+// spec_refsafe(k) = "the string with key id k is derived from layout constants
+// and validated names" (taint predicate, introduced only by the `grants`
+// clause of validReferenceName and propagated by Join/Split/String).
+
+// validReferenceName returns nil only for names IsSafe accepts and that carry
+// no control byte.
+//gvc:func validReferenceName
+//gvc:  props C14
+//gvc:  theory int
+//gvc:  opt coarse
+//gvc:  opt frame args
+//gvc:  ensures gate: result == nil ==> spec_issafe(strid(name))
+//gvc:  ensures noctl: result == nil ==> forall(k, 0, len(name), name[k] >= 0x20 && name[k] != 0x7f)
+//gvc:  loop 1 invariant scanned: forall(k, 0, i, s[k] >= 0x20 && s[k] != 0x7f)
+//gvc:  grants validated: result == nil ==> spec_refsafe(strid(name))
+//gvc:end
+
+//gvc:func (*DotGit).ReflogReader
+//gvc:  props C14
+//gvc:  theory int
+//gvc:  opt coarse
+//gvc:  opt frame args
+//gvc:  sink Open requires safe: spec_refsafe(strid(arg0))
+//gvc:end
+
+//gvc:func (*DotGit).ReflogWriter
+//gvc:  props C14
+//gvc:  theory int
+//gvc:  opt coarse
+//gvc:  opt frame args
+//gvc:  sink OpenFile requires safe: spec_refsafe(strid(arg0))
+//gvc:end
+
+//gvc:func (*DotGit).DeleteReflog
+//gvc:  props C14
+//gvc:  theory int
+//gvc:  opt coarse
+//gvc:  opt frame args
+//gvc:  sink Remove requires safe: spec_refsafe(strid(arg0))
+//gvc:end
+
+//gvc:func (*DotGit).Ref
+//gvc:  props C14
+//gvc:  theory int
+//gvc:  opt coarse
+//gvc:  opt frame args
+//gvc:  sink readReferenceFile requires safe: spec_refsafe(strid(arg1))
+//gvc:  sink packedRef requires safe: spec_refsafe(strid(arg0))
+//gvc:end
+
+//gvc:func (*DotGit).SetRef
+//gvc:  props C14
+//gvc:  theory int
+//gvc:  opt coarse
+//gvc:  opt frame args
+//gvc:  sink setRef requires safe: spec_refsafe(strid(arg0))
+//gvc:end
+
+//gvc:func (*DotGit).RemoveRef
+//gvc:  props C14
+//gvc:  theory int
+//gvc:  opt coarse
+//gvc:  opt frame args
+//gvc:  sink Stat requires safe: spec_refsafe(strid(arg0))
+//gvc:  sink Remove requires safe: spec_refsafe(strid(arg0))
+//gvc:  sink rewritePackedRefsWithoutRef requires safe: spec_refsafe(strid(arg0))
+//gvc:end
+
+// The helpers take already validated strings: their requires are obligations
+// at every (verified) call site above; inside, every filesystem call is a sink.
+//gvc:func (*DotGit).readReferenceFile
+//gvc:  props C14
+//gvc:  theory int
+//gvc:  opt coarse
+//gvc:  opt frame args
+//gvc:  requires root: const_ref_root(path)
+//gvc:  requires safe: spec_refsafe(strid(name))
+//gvc:  sink Stat requires safe: spec_refsafe(strid(arg0))
+//gvc:  sink Open requires safe: spec_refsafe(strid(arg0))
+//gvc:end
+
+//gvc:func (*DotGit).setRefRwfs
+//gvc:  props C14
+//gvc:  theory int
+//gvc:  opt coarse
+//gvc:  opt frame args
+//gvc:  requires safe: spec_refsafe(strid(fileName))
+//gvc:  sink OpenFile requires safe: spec_refsafe(strid(arg0))
+//gvc:end
+
+//gvc:func (*DotGit).setRefNorwfs
+//gvc:  props C14
+//gvc:  theory int
+//gvc:  opt coarse
+//gvc:  opt frame args
+//gvc:  requires safe: spec_refsafe(strid(fileName))
+//gvc:  sink Create requires safe: spec_refsafe(strid(arg0))
+//gvc:  sink Open requires safe: spec_refsafe(strid(arg0))
+//gvc:end
+
+//gvc:func (*DotGit).setRef
+//gvc:  props C14
+//gvc:  theory int
+//gvc:  opt coarse
+//gvc:  opt frame args
+//gvc:  requires safe: spec_refsafe(strid(fileName))
+//gvc:end
